@@ -18,7 +18,9 @@ LEVEL = 'model_checking'
 TEXTS = [None, 'a\n', 'a', 'a\r\nb\r\n', 'a\r\nb\n', '\n', ' lead\n  two\n',
          '#.change:\n#..file:\n', 'é\n', '\ufeffx\n', 'x\n\n\ny', '']
 METAS = [None, {'a': 'x'}, {'k': {'sub': [1, 'two', {'t': None}]}, 'z': 'é'},
-         {'b': 1, 'a': 2, 'B': 3}, {}]
+         {'b': 1, 'a': 2, 'B': 3}, {},
+         {'z': [{'source': 's', 'dest': 'd', 'bytes': 3}],
+          'a': {'y': {'q': 1, 'p': [{'n': 1, 'm': 2}]}}}]
 FMETAS = [{'path': 'f'}, {'path': 'g', 'revision': {'old': 'a', 'new': 'b'}},
           None, {}]
 DIFFS = [None, b'a\n', b'a', SAMPLE_DIFF, b'a\r\nb\r\n', b'a\r\nb\n',
